@@ -87,7 +87,7 @@ Print Assumptions C04_fm_locatePrefix_ids_spec_full.
 
 (* ---- composition with the wavelet tree (C19) ----------------------------------------------------------------- *)
 (* the FMDefs.v model is an instance of the model parametric in getLength / rank / access(i, rank) *)
-Theorem FM_param_ext : forall o d, ops_agree o (fm_bwt d) ->
+Theorem C05_fm_param_ext : forall o d, ops_agree o (fm_bwt d) ->
   (forall q, p_fm_locate o d q = fm_locate d q) /\ (forall id, p_fm_extract o d id = fm_extract d id) /\
   (forall p, p_fm_locatePrefix o d p = fm_locatePrefix d p) /\
   (forall p cap, p_fm_locatePrefix_ids o d p cap = fm_locatePrefix_ids d p cap) /\
@@ -106,7 +106,7 @@ Proof.
   - apply p_fm_extractPrefix_eq; exact H.
   - apply p_fm_extractTable_eq; exact H.
 Qed.
-Print Assumptions FM_param_ext.
+Print Assumptions C05_fm_param_ext.
 
 (* WaveletTree::access(pos, rank) (one descent) = symbol + inclusive rank of the plain list *)
 Theorem C19_wt_access_rank_spec :
@@ -125,7 +125,7 @@ Print Assumptions C19_wt_access_rank_spec.
 
 (* THE composition: a pointer wavelet tree over ANY lawful bitmap, built over the BWT symbols with a
    symbol-separating code, answers getLength / rank / access(i, rank) exactly like the list FMDefs.v runs on *)
-Theorem FM_over_wt :
+Theorem C19_fm_over_wt :
   forall (B : Type) (bbuild : list bool -> B) (baccess : B -> N -> bool) (brank1 bselect1 bselect0 : B -> N -> N)
          (is_set : N -> nat -> bool) (maxlen : N),
   maxlen <= W32 - 2 ->
@@ -137,14 +137,14 @@ Theorem FM_over_wt :
   forall depth bwt, lenN bwt < maxlen -> separable is_set depth 0 bwt ->
   ops_agree (wt_ops B baccess brank1 is_set (wt_new B bbuild is_set depth bwt) (lenN bwt)) bwt.
 Proof. exact fm_over_wt. Qed.
-Print Assumptions FM_over_wt.
+Print Assumptions C19_fm_over_wt.
 
 (* ... over the word-exact BitSequenceRG *)
-Theorem FM_over_wt_rg : forall factor is_set depth bwt,
+Theorem C19_fm_over_wt_rg : forall factor is_set depth bwt,
   1 <= factor -> lenN bwt < W32 - 64 -> separable is_set depth 0 bwt ->
   ops_agree (rg_wt_ops factor is_set depth bwt) bwt.
 Proof. exact fm_over_wt_rg. Qed.
-Print Assumptions FM_over_wt_rg.
+Print Assumptions C19_fm_over_wt_rg.
 
 (* C01-C03 over the wavelet tree: locate *)
 Theorem C03_fm_locate_over_wt_rg : forall S sa d factor is_set depth q,
